@@ -36,6 +36,16 @@ def history_step(rng, h, lang, names, ops, kind):
             e.fix()
             str(e)
             e.tree()
+        elif kind == "use_data":
+            # use a constant at one particular type: `(d : K(B))`, or as an argument next to a B
+            data = [o for o in ops if not o[2]]
+            if data:
+                d = rng.choice(data)
+                b = names[rng.randrange(5, 5 + h.nbase)]
+                if d[3][0] == "o" and d[3][2]:
+                    lang.parse(f"({d[0]} : {names[d[3][1]]}({', '.join([b] * len(d[3][2]))}))").fix()
+                else:
+                    lang.parse(f"({d[0]} : {b})").fix()
         elif kind == "validate":
             lang.validate()
         elif kind == "print":
@@ -70,7 +80,7 @@ def history_step(rng, h, lang, names, ops, kind):
         pass
 
 
-KINDS = ["parse", "parse", "parse", "parsefail", "parsefail", "validate", "print", "instantiate",
+KINDS = ["parse", "parse", "parse", "parsefail", "parsefail", "use_data", "validate", "print", "instantiate",
          "apply", "parse_type", "graph", "vocab", "query"]
 
 
@@ -157,7 +167,7 @@ def main(tier: str, seed: int, replay: str | None = None) -> int:
         "evaluations": n, "distinct_nontrivial": len(distinct), "disagreements": dis,
         "rule": "one Language per generated language; before each probe a history of 1-12 operations drawn from "
                 "valid parses, failing parses (bracket, unknown token, missing input, duplicated text, leading colon), "
-                "validate, printing signatures, instantiating/fixing operator types, applying them, parse_type with "
+                "using a constant at one particular type, validate, printing signatures, instantiating/fixing operator types, applying them, parse_type with "
                 "wildcards, add_expr, add_vocabulary, query construction; histories accumulate over the probes of a "
                 "language; non-trivial = history of >= 3 operations",
         "outcome_distribution": stats, "samples": samples, "exhaustive": False})
